@@ -429,4 +429,174 @@ theorem faithful_eval (tokens : List Tok) (s0 : σ) :
   apply PresF.bind (presF_run [] tokens) (fun vs => presF_finish vs)
   rfl
 
+/-! #### erasure: the recording wrapper does not change what is computed -/
+
+/-- `s'` is `s` plus recorded names -/
+def Rel (s : ES σ Obj) (s' : ES (σ × List String) Obj) : Prop :=
+  s'.hs.1 = s.hs ∧ s'.reads = s.reads ∧ s'.resolved = s.resolved
+
+/-- `m'` (over `spy h`) simulates `m` (over `h`): same result, related states -/
+def Sim {α : Type} (m : M σ Obj α) (m' : M (σ × List String) Obj α) : Prop :=
+  ∀ s s', Rel s s' → (m s).1 = (m' s').1 ∧ Rel (m s).2 (m' s').2
+
+theorem Sim.pure {α : Type} (a : α) : Sim (M.pure a : M σ Obj α) (M.pure a) := fun _ _ hr => ⟨rfl, hr⟩
+theorem Sim.throw {α : Type} (e : Exc) : Sim (M.throw e : M σ Obj α) (M.throw e) := fun _ _ hr => ⟨rfl, hr⟩
+
+theorem Sim.bind {α β : Type} {m : M σ Obj α} {m' : M (σ × List String) Obj α}
+    {f : α → M σ Obj β} {f' : α → M (σ × List String) Obj β}
+    (hm : Sim m m') (hf : ∀ a, Sim (f a) (f' a)) : Sim (M.bind m f) (M.bind m' f') := by
+  intro s s' hr
+  have h1 := hm s s' hr
+  unfold M.bind
+  rcases hms : m s with ⟨r, t⟩
+  rcases hms' : m' s' with ⟨r', t'⟩
+  rw [hms, hms'] at h1
+  obtain ⟨h1a, h1b⟩ := h1
+  simp only at h1a
+  subst h1a
+  cases r with
+  | ok a => exact hf a t t' h1b
+  | error e => exact ⟨rfl, h1b⟩
+
+theorem Sim.spyOp {α : Type} (op : HRes σ α) : Sim (M.lift op : M σ Obj α) (M.lift (spyOp op)) := by
+  intro s s' hr
+  obtain ⟨h1, h2, h3⟩ := hr
+  simp [M.lift, GtModel.Expr.spyOp, h1, Rel, h2, h3]
+
+theorem Sim.getattr (h : Host σ Obj) (a : Obj) (n : String) :
+    Sim (M.lift (h.getattr a n) : M σ Obj Obj) (M.lift ((spy h).getattr a n)) := by
+  intro s s' hr
+  obtain ⟨h1, h2, h3⟩ := hr
+  simp [M.lift, spy, h1, Rel, h2, h3]
+
+theorem Sim.logRead (o : Obj) (n : String) (g : Bool) :
+    Sim (M.logRead o n g : M σ Obj Unit) (M.logRead o n g) := by
+  intro s s' hr
+  obtain ⟨h1, h2, h3⟩ := hr
+  simp [M.logRead, Rel, h1, h2, h3]
+
+theorem Sim.logResolved (n : String) : Sim (M.logResolved n : M σ Obj Unit) (M.logResolved n) := by
+  intro s s' hr
+  obtain ⟨h1, h2, h3⟩ := hr
+  simp [M.logResolved, Rel, h1, h2, h3]
+
+theorem sim_getValue (v : SVal Obj) : Sim (getValue h locals globals v) (getValue (spy h) locals globals v) := by
+  unfold getValue
+  split
+  · exact Sim.pure _
+  · exact Sim.pure _
+  · exact Sim.pure _
+  · exact Sim.pure _
+  · split
+    · exact Sim.bind (Sim.logResolved _) fun _ => Sim.pure _
+    · split
+      · exact Sim.bind (Sim.logResolved _) fun _ => Sim.pure _
+      · exact Sim.throw _
+  · exact Sim.throw _
+
+theorem sim_getValues (vs : List (SVal Obj)) :
+    Sim (getValues h locals globals vs) (getValues (spy h) locals globals vs) := by
+  induction vs with
+  | nil => exact Sim.pure _
+  | cons v vs ih =>
+    unfold getValues
+    exact Sim.bind (sim_getValue v) fun _ => Sim.bind ih fun _ => Sim.pure _
+
+@[simp] theorem spy_isReflective : (spy h).isReflective = h.isReflective := rfl
+@[simp] theorem spy_isStrType : (spy h).isStrType = h.isStrType := rfl
+@[simp] theorem spy_isStrInst : (spy h).isStrInst = h.isStrInst := rfl
+@[simp] theorem spy_safeFn : (spy h).safeFn = h.safeFn := rfl
+@[simp] theorem spy_mkPartial : (spy h).mkPartial = h.mkPartial := rfl
+
+set_option linter.unusedSimpArgs false in
+theorem sim_getMember (a : Obj) (m : SVal Obj) : Sim (getMember h a m) (getMember (spy h) a m) := by
+  unfold getMember
+  simp only [spy_isReflective, spy_isStrType, spy_isStrInst, spy_safeFn, spy_mkPartial]
+  split
+  · rename_i name _
+    by_cases hu : name.startsWith "_" = true
+    · simp only [hu, ↓reduceIte]
+      exact Sim.bind (Sim.spyOp _) fun _ => Sim.throw _
+    · simp only [hu, ↓reduceIte]
+      by_cases hr : h.isReflective a = true
+      · simp only [hr, ↓reduceIte]
+        exact Sim.throw _
+      · simp only [hr, ↓reduceIte]
+        by_cases h1 : (safeStrMethods.contains name && h.isStrType a) = true
+        · simp only [h1, ↓reduceIte]
+          exact Sim.pure _
+        · simp only [h1, ↓reduceIte]
+          by_cases h2 : (safeStrMethods.contains name && h.isStrInst a) = true
+          · simp only [h2, ↓reduceIte]
+            exact Sim.pure _
+          · simp only [h2, ↓reduceIte]
+            exact Sim.bind (Sim.logRead _ _ _) fun _ => Sim.getattr h _ _
+  · exact Sim.throw _
+  · exact Sim.bind (Sim.spyOp _) fun _ => Sim.bind (Sim.logRead _ _ _) fun _ =>
+      Sim.bind (Sim.getattr h _ _) fun _ => Sim.throw _
+
+theorem sim_expandArgs (es : List Bool) (vs : List (SVal Obj)) :
+    Sim (expandArgs h locals globals es vs) (expandArgs (spy h) locals globals es vs) := by
+  induction es generalizing vs with
+  | nil => unfold expandArgs; exact Sim.pure _
+  | cons e es ih =>
+    cases vs with
+    | nil => unfold expandArgs; exact Sim.pure _
+    | cons v vs =>
+      unfold expandArgs
+      split
+      · exact Sim.bind (sim_getValue v) fun _ => Sim.bind (ih vs) fun _ => Sim.pure _
+      · exact Sim.bind (ih vs) fun _ => Sim.pure _
+
+theorem sim_execute (spec : OpSpec) (args : List (SVal Obj)) :
+    Sim (execute h spec args) (execute (spy h) spec args) := by
+  unfold execute
+  split
+  · exact Sim.throw _
+  · split
+    · exact sim_getMember _ _
+    · exact Sim.spyOp _
+    · exact Sim.spyOp _
+    · exact Sim.pure _
+    · exact Sim.spyOp _
+    · exact Sim.spyOp _
+    · exact Sim.bind (Sim.spyOp _) fun _ => Sim.pure _
+    · exact Sim.spyOp _
+    · exact Sim.bind (Sim.spyOp _) fun _ => Sim.pure _
+    · exact Sim.bind (Sim.spyOp _) fun _ => Sim.pure _
+    · exact Sim.pure _
+    · exact Sim.bind (Sim.spyOp _) fun _ => Sim.spyOp _
+    · exact Sim.throw _
+
+theorem sim_step (values : List (SVal Obj)) (t : Tok) :
+    Sim (step h locals globals values t) (step (spy h) locals globals values t) := by
+  unfold step
+  split
+  · exact Sim.bind (sim_getValues _) fun _ => Sim.pure _
+  · exact Sim.bind (sim_expandArgs _ _) fun _ => Sim.bind (sim_execute _ _) fun _ => Sim.pure _
+  · exact Sim.pure _
+
+theorem sim_run (values : List (SVal Obj)) (ts : List Tok) :
+    Sim (run h locals globals values ts) (run (spy h) locals globals values ts) := by
+  induction ts generalizing values with
+  | nil => unfold run; exact Sim.pure _
+  | cons t ts ih => unfold run; exact Sim.bind (sim_step values t) fun vs => ih vs
+
+theorem sim_finish (values : List (SVal Obj)) :
+    Sim (finish h locals globals values) (finish (spy h) locals globals values) := by
+  unfold finish
+  split
+  · split
+    · exact Sim.bind (sim_getValue _) fun _ => Sim.pure _
+    · exact Sim.pure _
+  · exact Sim.throw _
+
+/-- `eval` over the recording wrapper computes the same result, the same host state and the same evaluator log
+    as `eval` over the host itself. -/
+theorem sim_eval (tokens : List Tok) (s0 : σ) (rec0 : List String) :
+    (eval h locals globals tokens s0).1 = (eval (spy h) locals globals tokens (s0, rec0)).1 ∧
+    Rel (eval h locals globals tokens s0).2 (eval (spy h) locals globals tokens (s0, rec0)).2 := by
+  unfold eval
+  exact Sim.bind (sim_run [] tokens) (fun vs => sim_finish vs) _ _ ⟨rfl, rfl, rfl⟩
+
 end GtModel.Expr
